@@ -240,7 +240,8 @@ Proof.
   apply nopanic_mbind; [apply nopanic_s_get_method|]. intros meth.
   destruct (_ && _)%bool; [apply nopanic_mret|].
   apply nopanic_mbind; [apply nopanic_mtry, nopanic_s_get_dialog|]. intros [d|]; [|apply nopanic_mret].
-  destruct (pins_get (e_now e) d (ps_pins p)) as [pins1 ob].
+  destruct (pins_get (e_now e) d (ps_pins p)) as [pins1 ob]. cbv zeta.
+  destruct (_ && _)%bool; [apply nopanic_mret|].
   apply nopanic_mbind; [apply nopanic_mtry, nopanic_s_get_raw|]. intros ss. apply nopanic_mret.
 Qed.
 Lemma nopanic_handle_dialog e peer pp p : nopanic (handle_dialog e peer pp p).
@@ -442,7 +443,7 @@ Definition wit_cfg : cfg :=
   {| c_name := s2b "proxy.example.org"; c_keep_next_hop := false; c_dialog_timeout := 3600%Z;
      c_routes := []; c_hosts := []; c_listens := [wit_lc] |}.
 Definition legacy_bracket : fixes :=
-  {| fx_wiring := true; fx_udp_via_listener := true; fx_indialog_invite := true; fx_bracket_host := false; fx_resolved_key := true |}.
+  {| fx_wiring := true; fx_udp_via_listener := true; fx_indialog_invite := true; fx_bracket_host := false; fx_resolved_key := true; fx_stale_pin := true |}.
 (* a TCP request whose top Via has the sent-by host "[" (received-support off, so the host is
    not replaced by the peer address) *)
 Definition bracket_request : bytes :=
